@@ -451,7 +451,8 @@ theorem mulExpr_atoms (expr : St → Option St) (a : E) (ha : IsAtom a) (rest : 
       | nil => simp [chainToks]
       | cons x r ih =>
         obtain ⟨op, j, y⟩ := x
-        have : 1 ≤ (op.toks j).length := by cases op <;> simp [BinOp.toks]
+        have : 1 ≤ (op.toks j).length := by
+          cases op <;> simp only [BinOp.toks] <;> first | simp | (split <;> simp)
         simp only [chainToks, List.length_cons, List.length_append]
         omega
     have := this rest
